@@ -17,6 +17,7 @@ func (db *DB) SetMode(m mode.Mode) error {
 		return nil
 	}
 
+	old := db.mode
 	if !db.mode.NoMetabase() {
 		if err := db.Close(); err != nil {
 			return fmt.Errorf("can't set metabase mode (old=%s, new=%s): %w", db.mode, m, err)
@@ -37,7 +38,14 @@ func (db *DB) SetMode(m mode.Mode) error {
 	}
 
 	if err != nil {
-		return fmt.Errorf("can't set metabase mode (old=%s, new=%s): %w", db.mode, m, err)
+		// The database is closed by now (or could not be initialized), so no
+		// mode claiming an operational metabase can be kept: operations
+		// would dereference the closed database. Same as after a failed
+		// Reload.
+		_ = db.Close()
+		db.boltDB = nil
+		db.mode = mode.Degraded
+		return fmt.Errorf("can't set metabase mode (old=%s, new=%s): %w", old, m, err)
 	}
 
 	db.mode = m
